@@ -71,12 +71,17 @@ func NewResponseFilterWriter(filters []ResponseFilter, gz *gzipResponseWriter) *
 // WriteHeader wraps underlying WriteHeader method and
 // compresses if filters are satisfied.
 func (r *ResponseFilterWriter) WriteHeader(code int) {
-	// Determine if compression should be used or not.
-	r.shouldCompress = true
-	for _, filter := range r.filters {
-		if !filter.ShouldCompress(r) {
-			r.shouldCompress = false
-			break
+	// Determine if compression should be used or not, once: a later
+	// call (a final header after an informational one, or a handler
+	// writing the header twice) must take the way the first one took,
+	// it cannot undo the Content-Encoding the client was sent.
+	if !r.statusCodeWritten {
+		r.shouldCompress = true
+		for _, filter := range r.filters {
+			if !filter.ShouldCompress(r) {
+				r.shouldCompress = false
+				break
+			}
 		}
 	}
 
@@ -92,6 +97,21 @@ func (r *ResponseFilterWriter) WriteHeader(code int) {
 		r.ResponseWriter.WriteHeader(code)
 	}
 	r.statusCodeWritten = true
+}
+
+// Flush commits the header first, deciding about compression as
+// Write does, so that the header sent names the coding of the body
+// that follows; then it flushes what has been written so far.
+func (r *ResponseFilterWriter) Flush() {
+	if !r.statusCodeWritten {
+		r.WriteHeader(http.StatusOK)
+	}
+	if r.shouldCompress {
+		if gzWriter, ok := r.gzipResponseWriter.Writer().(*gzip.Writer); ok {
+			gzWriter.Flush()
+		}
+	}
+	r.gzipResponseWriter.Flush()
 }
 
 // Write wraps underlying Write method and compresses if filters
